@@ -105,31 +105,46 @@ def eval_case(arg):
             d = compare_unordered(par, seq)
             if d:
                 res["problems"].append(("cold-parallel",) + d)
-        # edit, then warm runs on the cache the parallel build left, and on copies of it
-        project.apply_edit(st, ops[1])
-        proj.sync(project.render(st), project.unlisted_paths(st))
-        targets = proj.targets()
-        cold_dir = mypyrun.scratch("c07cold")
-        cpar2 = mypyrun.scratch("c07par2")
-        try:
-            mypyrun.seed_for(histrun.COMMON + flags, "c07").copy_to(cold_dir)
-            cold = run_sub(root, targets, flags, cold_dir)
-            shutil.copytree(cpar, cpar2, dirs_exist_ok=True)
-            warm_seq = run_sub(root, targets, flags, cpar)
-            warm_par = run_sub(root, targets, flags, cpar2, n=n, spec=dict(sched, log=None))
-            if not histrun.crashed(cold):
-                for name, r in (("warm-sequential-on-parallel-cache", warm_seq), ("warm-parallel-on-parallel-cache", warm_par)):
-                    if r["err"] == "WORKER-STARTUP-TIMEOUT":
-                        continue
-                    if histrun.crashed(r):
-                        res["problems"].append((name, "crash", r["err"][-1500:] + r["raw"][-300:], []))
-                    else:
-                        d = compare_unordered(r, cold)
-                        if d:
-                            res["problems"].append((name,) + d)
-        finally:
-            mypyrun.rmtree(cold_dir)
-            mypyrun.rmtree(cpar2)
+        # edit -> warm runs on the cache the parallel build left (sequential on a copy, parallel on the chain cache);
+        # then the edit is REVERTED and some untouched files get a new mtime -> warm parallel and sequential again.
+        # (A dependant that recorded a stale interface hash during the parallel run is wrongly fresh after the revert.)
+        st_before = copy.deepcopy(st)
+        # the edit changes the interface of an export that other modules use (falls back to the drawn edit)
+        users = sorted({u["dep"] for o, om in st["mods"].items() for u in om["uses"] if u["dep"] in st["mods"] and u["dep"] != o})
+        rnd0 = random.Random(seed + 1)
+        done = False
+        if users:
+            done = project.apply_edit(st, {"op": "change_used_export", "mod": rnd0.choice(users), "seed": rnd0.randrange(2**30)})
+        if not done:
+            project.apply_edit(st, ops[1])
+        rnd = random.Random(seed)
+        for phase, state in (("after-edit", st), ("after-revert", st_before)):
+            proj.sync(project.render(state), project.unlisted_paths(state))
+            if phase == "after-revert":
+                same = sorted(proj.files)
+                proj.touch(rnd.sample(same, min(3, len(same))))
+            targets = proj.targets()
+            cold_dir = mypyrun.scratch("c07cold")
+            cseq2 = mypyrun.scratch("c07seq2")
+            try:
+                mypyrun.seed_for(histrun.COMMON + flags, "c07").copy_to(cold_dir)
+                cold = run_sub(root, targets, flags, cold_dir)
+                shutil.copytree(cpar, cseq2, dirs_exist_ok=True)
+                warm_seq = run_sub(root, targets, flags, cseq2)
+                warm_par = run_sub(root, targets, flags, cpar, n=n, spec=dict(sched, log=None))
+                if not histrun.crashed(cold):
+                    for name, r in (("warm-sequential-on-parallel-cache:" + phase, warm_seq), ("warm-parallel-on-parallel-cache:" + phase, warm_par)):
+                        if r["err"] == "WORKER-STARTUP-TIMEOUT":
+                            continue
+                        if histrun.crashed(r):
+                            res["problems"].append((name, "crash", r["err"][-1500:] + r["raw"][-300:], []))
+                        else:
+                            d = compare_unordered(r, cold)
+                            if d:
+                                res["problems"].append((name,) + d)
+            finally:
+                mypyrun.rmtree(cold_dir)
+                mypyrun.rmtree(cseq2)
         if res["problems"]:
             res["files"] = project.render(st)
     finally:
@@ -147,7 +162,7 @@ def compare_unordered(a, b):
 
 
 def judge(run: Run, res) -> None:
-    run.count(3)
+    run.count(5)
     if "skip" in res:
         run.label("skipped:" + res["skip"])
         if "timed out" in res["skip"] and not run.inconclusive:
@@ -182,7 +197,7 @@ def run(run: Run) -> None:
 
     run.rule = (
         "(project, schedule) pairs: G2 projects with 10-18 modules (cycles, errors, blockers, missing imports) x N in {1,2,3,4,8} x schedule vector drawn by Hypothesis (per-(SCC, phase) delays 0-%d ms applied in every worker, "
-        "free-worker policy min/max/rand/default, batch policy one/all/default, reply reordering) x store fs/sqlite; parallel cold run vs sequential run with the same parser; after an edit, warm sequential and warm parallel runs on the cache the parallel build left vs cold. "
+        "free-worker policy min/max/rand/default, batch policy one/all/default, reply reordering) x store fs/sqlite; parallel cold run vs sequential run with the same parser; after an edit, and again after the edit is reverted and some unchanged files are touched, warm sequential and warm parallel runs on the cache the parallel builds left vs cold. "
         "Non-trivial: >=2 workers processed SCCs and some module's dependency was processed by a different worker (from the shim's log)." % (60 if q else 300)
     )
     run.assumptions = ["schedules are perturbed, not enumerated: 'every schedule' is sampled", "cross-file message order is not compared (streaming order is schedule dependent by design)"]
